@@ -261,7 +261,7 @@ LAWS = ["and_comm", "or_comm", "and_assoc", "or_assoc", "and_idem", "or_idem", "
         "distrib1", "distrib2", "involution", "demorgan1", "demorgan2", "compl_and", "compl_or"]
 
 
-def random_session(sid: int, seed: int, length: int = 12, risky=False) -> dict:
+def random_session(sid: int, seed: int, length: int = 12, risky=True) -> dict:
     rng = random.Random(seed)
     s = Session(sid, seed)
     pool = make_pool(rng, k=rng.choice([2, 3, 3, 4]), epoch_ok=True)
@@ -290,7 +290,7 @@ def random_session(sid: int, seed: int, length: int = 12, risky=False) -> dict:
     return s.finish()
 
 
-def law_session(sid: int, seed: int, risky=False) -> dict:
+def law_session(sid: int, seed: int, risky=True) -> dict:
     rng = random.Random(seed)
     s = Session(sid, seed)
     pool = make_pool(rng, k=rng.choice([2, 3]), epoch_ok=rng.random() < 0.3)
@@ -359,7 +359,7 @@ def law_session(sid: int, seed: int, risky=False) -> dict:
     return s.finish()
 
 
-def make_batch(seed: int, n_random: int, n_law: int, risky=False) -> dict:
+def make_batch(seed: int, n_random: int, n_law: int, risky=True) -> dict:
     sessions = []
     sid = 0
     for k in range(n_random):
